@@ -136,7 +136,7 @@ func newGlobals() *Globals {
 	g.decl("fn strcat", "(declare-fun strcat (Str Str) Str)")
 	g.decl("fn str_of", "(declare-fun str_of ((Array Int Int) Int Int Int) Str)")
 	g.decl("fn str_at", "(declare-fun str_at (Str Int) Int)")
-	g.addAxiom("(elem ", "(forall ((a Int) (i Int)) (! (and (= (elem_arr (elem a i)) a) (= (elem_idx (elem a i)) i) (= (tag (elem a i)) 1) (= (base (elem a i)) (base a))) :pattern ((elem a i))))")
+	g.addAxiom("(elem ", "(forall ((a Int) (i Int)) (! (and (= (elem_arr (elem a i)) a) (= (elem_idx (elem a i)) i) (= (tag (elem a i)) 1) (= (base (elem a i)) (base a)) (not (= (elem a i) 0))) :pattern ((elem a i))))")
 	g.addAxiom("(strlen ", "(forall ((s Str)) (! (>= (strlen s) 0) :pattern ((strlen s))))")
 	return g
 }
@@ -281,7 +281,7 @@ func (g *Globals) fldFn(si *structInfo, i int) string {
 		id := len(g.fldFns) + 1
 		g.decl("fn "+n, fmt.Sprintf("(declare-fun %s (Int) Int)", n))
 		g.decl("fn "+n+"_inv", fmt.Sprintf("(declare-fun %s_inv (Int) Int)", n))
-		g.addAxiom("("+n+" ", fmt.Sprintf("(forall ((a Int)) (! (and (= (%s_inv (%s a)) a) (= (tag (%s a)) %d) (= (base (%s a)) (base a))) :pattern ((%s a))))", n, n, n, id, n, n))
+		g.addAxiom("("+n+" ", fmt.Sprintf("(forall ((a Int)) (! (and (= (%s_inv (%s a)) a) (= (tag (%s a)) %d) (= (base (%s a)) (base a)) (not (= (%s a) 0))) :pattern ((%s a))))", n, n, n, id, n, n, n))
 	}
 	return n
 }
